@@ -108,6 +108,7 @@ func (c07) Plan(tier string, seed int64) []mon.Workload {
 		{Name: "strings-exhaustive", N: n, Exhaustive: true},
 		{Name: "strings-random", N: rnd},
 		{Name: "code-points", N: int64(len(c07CodePoints) * len(c07CPForms) * len(c07CPContexts) * len(c07Styles)), Exhaustive: true},
+		{Name: "code-point-pairs", N: int64(len(c07PairCPs) * len(c07PairCPs) * 2 * 2 * 2 * 2), Exhaustive: true},
 		{Name: "two-literals", N: int64(len(c07PairBodies) * len(c07Styles) * len(c07Styles) * 2), Exhaustive: true},
 		{Name: "ints", N: int64(len(c07IntList)), Exhaustive: true},
 		{Name: "number-neighbours", N: int64(len(c07NbLits) * len(c07NbForms)), Exhaustive: true},
@@ -293,9 +294,36 @@ func c07CodePoint(i int64) (sp, style string) {
 	return style + strings.ReplaceAll(ctx, "%s", frag) + style, style
 }
 
+// code-point-pairs (exhaustive): two numeric escapes next to each other (or
+// a blank apart), over the code points where encodings change shape - the
+// ends of the 1/2/3-byte ranges, both halves of the surrogate range, the
+// replacement character, an astral character. Each escape denotes its own
+// code point or is malformed by itself; nothing combines.
+var c07PairCPs = []rune{0x41, 0x7f, 0x80, 0xff, 0x7ff, 0x800, 0xd7ff, 0xd800, 0xd83d, 0xdbff, 0xdc00, 0xde00, 0xdfff, 0xe000, 0xfffd, 0xffff, 0x1f600}
+
+func c07CodePointPair(i int64) (sp, style string) {
+	style = []string{"\"", "'"}[i%2]
+	i /= 2
+	sep := []string{"", " "}[i%2]
+	i /= 2
+	f1, f2 := i%2, i/2%2
+	i /= 4
+	n := int64(len(c07PairCPs))
+	esc := func(form int64, cp rune) string {
+		if form == 0 && cp <= 0xffff {
+			return fmt.Sprintf("\\u%04x", cp)
+		}
+		return fmt.Sprintf("\\U%08x", cp)
+	}
+	return style + esc(f1, c07PairCPs[i/n]) + sep + esc(f2, c07PairCPs[i%n]) + style, style
+}
+
 func c07String(c *mon.Ctx, workload string, i int64) (sp, style string) {
 	if workload == "code-points" {
 		return c07CodePoint(i)
+	}
+	if workload == "code-point-pairs" {
+		return c07CodePointPair(i)
 	}
 	if workload == "strings-exhaustive" {
 		style = c07Styles[i%int64(len(c07Styles))]
@@ -322,7 +350,7 @@ func (k c07) Describe(c *mon.Ctx, workload string, i int64) any {
 
 func (k c07) spelling(c *mon.Ctx, workload string, i int64) string {
 	switch workload {
-	case "strings-exhaustive", "strings-random", "code-points":
+	case "strings-exhaustive", "strings-random", "code-points", "code-point-pairs":
 		sp, _ := c07String(c, workload, i)
 		return sp
 	case "ints":
@@ -493,7 +521,7 @@ func (k c07) Run(c *mon.Ctx, workload string, i int64) {
 		k.literalContexts(c, i)
 	case "number-neighbours":
 		k.neighbours(c, i)
-	case "strings-exhaustive", "strings-random", "code-points":
+	case "strings-exhaustive", "strings-random", "code-points", "code-point-pairs":
 		sp, style := c07String(c, workload, i)
 		if sp == "" || !utf8.ValidString(sp) {
 			return
